@@ -1,7 +1,9 @@
 (* Property C12 — instance startup profile. Statements only; proofs live in Proofs/StartLoopProofs.v. *)
-From Coq Require Import List ZArith Bool Arith.
+From Coq Require Import List ZArith Bool Arith Lia.
 From Coq Require Import Permutation.
-From PV Require Import Model.StartLoop Model.Instance Model.StartAsync Proofs.StartLoopProofs Proofs.StartAsyncProofs.
+From PV Require Import Model.StartLoop Model.Instance Model.StartAsync Model.StartWaiter Model.StartFire.
+From PV Require Import Proofs.StartLoopProofs Proofs.StartAsyncProofs Proofs.StartWaiterProofs Proofs.StartFireProofs.
+From PV Require Model.Waiter.
 Import ListNotations.
 Local Open Scope Z_scope.
 
@@ -168,4 +170,122 @@ Example C12_async_swallowed_failure_differs :
                  (ainit [0; 0; 10] 0) = Some a
             /\ spc (base a) = LEnd EExhausted /\ live_ids a = [2%nat; 0%nat] /\ failed a = [1%nat]
             /\ cancelled (base a) = None.
+Proof. eexists. split; [vm_compute; reflexivity|]. vm_compute. repeat split; reflexivity. Qed.
+
+(* ------------------------------------------------------------------------------------------ *)
+(* The Waiter's lateness bookkeeping under the start loop (Model/StartWaiter.v).  waiter.go keeps
+   overdueDuration = how late the last event was handed out (a slowly created first instance makes
+   the tokens behind it late).  It must not decide WHEN a token is released.  [wlstep false] = the
+   code with that bookkeeping explicit; every trace, any token stream: *)
+
+(* the bookkeeping runs underneath without changing the loop: instances are never ahead of the
+   profile, instance k is created at or after token k - however late earlier tokens were *)
+Theorem C12_waiter_not_ahead : forall toks l t0 s ov,
+  wlrun false l (wlinit toks t0) = Some (s, ov) ->
+  srun l (sinit toks t0) = Some s
+  /\ (forall t, (started_by t s <= released_by t toks)%nat)
+  /\ (forall id c, In (id, c) (started s) -> exists tk, nth_error toks id = Some tk /\ tk <= c)
+  /\ 0 <= ov.
+Proof.
+  intros toks l t0 s ov H. split; [exact (wlrun_code_is_loop l _ _ _ _ H)|].
+  destruct (wl_not_ahead toks l t0 s ov H) as [A B]. split; [exact A|split; [exact B|]].
+  exact (wl_overdue_nonneg toks l t0 s ov H).
+Qed.
+Print Assumptions C12_waiter_not_ahead.
+
+(* the loop's Wait, where it holds a token, is Model/Waiter.v [wait wfixed] - the function that
+   Gen/GoFnWaiter_bridge.v (property C04) proves equal to waiter.go Waiter.Wait re-read from source:
+   same cached reading and overdue afterwards; the loop sleeps exactly when that Wait arms its timer *)
+Theorem C12_loop_wait_is_waiter : forall s ov tk fail pc b wake s' ov',
+  spc s = LHave tk ->
+  wlstep false (SLoop fail pc) (s, ov) = Some (s', ov') ->
+  let (st', o) := Waiter.wait Waiter.wfixed {| Waiter.lastNow := lastNow s; Waiter.overdue := ov |}
+                              (wcall_of s tk b wake) in
+  Waiter.lastNow st' = lastNow s' /\ Waiter.overdue st' = ov'
+  /\ (spc s' = LSleep tk <-> (Waiter.w_slept o || negb (Waiter.w_ok o)) = true)
+  /\ (spc s' = LCreate tk <-> (Waiter.w_slept o || negb (Waiter.w_ok o)) = false).
+Proof. exact wl_have_is_waiter. Qed.
+Print Assumptions C12_loop_wait_is_waiter.
+
+(* sensitivity: the release rule "waitFor <= overdue" (a token due sooner than the previous one was
+   late is handed out at once) falsifies C12_waiter_not_ahead: the first instance takes 300 to create,
+   the second token is 300 late, the third token - due at 500 - becomes an instance at 300; the code
+   itself blocks on its timer at that point (the same trace is not a trace of the code) and creates it at 500 *)
+Example C12_waiter_catchup_differs :
+  let tr := repeat (SLoop false false) 4 ++ [STick 300] ++ repeat (SLoop false false) 8 in
+  (exists s ov, wlrun true tr (wlinit [0; 0; 500] 0) = Some (s, ov)
+     /\ creations s = [(0%nat, 0); (1%nat, 300); (2%nat, 300)]
+     /\ (released_by 300%Z [0%Z; 0%Z; 500%Z] < started_by 300%Z s)%nat /\ ov < 0)
+  /\ wlrun false tr (wlinit [0; 0; 500] 0) = None
+  /\ (exists s ov, wlrun false (repeat (SLoop false false) 4 ++ [STick 300] ++ repeat (SLoop false false) 7
+                                ++ [STick 200] ++ repeat (SLoop false false) 4) (wlinit [0; 0; 500] 0) = Some (s, ov)
+       /\ creations s = [(0%nat, 0); (1%nat, 300); (2%nat, 500)] /\ spc s = LEnd EExhausted).
+Proof.
+  split; [|split; [vm_compute; reflexivity|]].
+  - eexists; eexists. split; [vm_compute; reflexivity|]. vm_compute. repeat split; try reflexivity; lia.
+  - eexists; eexists. split; [vm_compute; reflexivity|]. vm_compute. split; reflexivity.
+Qed.
+
+(* ------------------------------------------------------------------------------------------ *)
+(* Instances firing under the start loop (Model/StartFire.v): the cancel source "out of ammo" is
+   produced by the system - an instance's Acquire answered !ok, the instance returned outOfAmmoErr,
+   awaitRun received it - not a free label.  Item VALUES are arbitrary (None = nil: providers for guns
+   that need no ammo).  Every trace, any token stream, any items: *)
+
+(* instance start is cut by "out of ammo" only when the provider has really answered !ok (nothing left) *)
+Theorem C12_fire_out_of_ammo_grounded : forall its toks l t0 f,
+  frun OnlyNotOk l (finit toks t0 its) = Some f ->
+  arun (flat_map fproj l) (ainit toks t0) = Some (fa f)
+  /\ (cancelled (base (fa f)) = Some OutOfAmmo -> said_no f = true /\ items f = []).
+Proof.
+  intros its toks l t0 f H. split; [exact (frun_proj _ _ _ _ H)|exact (fire_out_of_ammo_grounded its toks l t0 f H)].
+Qed.
+Print Assumptions C12_fire_out_of_ammo_grounded.
+
+(* an instance, once it exists, is in its shooting loop until it leaves it: with outOfAmmoErr only
+   after the provider answered !ok with nothing left, otherwise by a labelled end (RPS profile
+   exhausted / run cancelled); every item handed out was shot, whatever its value *)
+Theorem C12_fire_keeps_firing : forall its toks l t0 f,
+  frun OnlyNotOk l (finit toks t0 its) = Some f ->
+  Permutation (live_ids (fa f)) (firing f ++ outq f ++ map fst (gone f))
+  /\ (forall id, In id (outq f) \/ In (id, LvAmmo) (gone f) -> said_no f = true /\ items f = [])
+  /\ (length (shots f) + length (items f) = length its)%nat.
+Proof. exact fire_keeps_firing. Qed.
+Print Assumptions C12_fire_keeps_firing.
+
+(* all tokens become instances unless: the provider really ran out, another labelled source
+   (RPS finished, run cancelled, instance failed) or a failed creation is in the trace, or the first
+   instance could not be created *)
+Theorem C12_fire_all_tokens : forall its toks l t0 f e,
+  frun OnlyNotOk l (finit toks t0 its) = Some f ->
+  spc (base (fa f)) = LEnd e -> quiescent (fa f) = true ->
+  (length (live (fa f)) < length toks)%nat ->
+  (said_no f = true /\ items f = [])
+  \/ (exists c, c <> OutOfAmmo /\ In (FBase (ABase (SCancel c))) l)
+  \/ (exists id, In (FBase (AAwait id)) l)
+  \/ e = EFirstCreateFailed.
+Proof. exact fire_all_tokens. Qed.
+Print Assumptions C12_fire_all_tokens.
+
+(* non-vacuity: a provider of nil items (the dummy provider); three tokens, three instances, each
+   fires nil items; nothing is cut *)
+Example C12_fire_nil_items_run :
+  let B := FBase (ABase (SLoop false false)) in
+  exists f, frun OnlyNotOk (repeat B 4 ++ [FAcquire 0%nat] ++ repeat B 4 ++ [FBase (AResolve 1 true); FAcquire 1%nat]
+                            ++ repeat B 3 ++ [FBase (ABase (STick 10))] ++ repeat B 2
+                            ++ [FBase (AResolve 2 true); FAcquire 2%nat; FAcquire 0%nat] ++ repeat B 2)
+                 (finit [0; 0; 10] 0 (repeat None 6)) = Some f
+            /\ spc (base (fa f)) = LEnd EExhausted /\ live_ids (fa f) = [2%nat; 1%nat; 0%nat]
+            /\ firing f = [2%nat; 1%nat; 0%nat] /\ length (shots f) = 4%nat /\ said_no f = false.
+Proof. eexists. split; [vm_compute; reflexivity|]. vm_compute. repeat split; reflexivity. Qed.
+
+(* sensitivity: under the rule that also takes a nil item for the end of the ammo, the conclusions of
+   C12_fire_out_of_ammo_grounded and C12_fire_all_tokens are false: instance 0 leaves at its first
+   Acquire, instance start is cut with two tokens unused although the provider never answered !ok and
+   still has items *)
+Example C12_fire_nil_as_out_of_ammo_differs :
+  let B := FBase (ABase (SLoop false false)) in
+  exists f, frun NilToo (repeat B 4 ++ [FAcquire 0%nat; FAwaitOut 0%nat; B]) (finit [0; 0; 10] 0 (repeat None 4)) = Some f
+            /\ spc (base (fa f)) = LEnd (ECancelled OutOfAmmo) /\ cancelled (base (fa f)) = Some OutOfAmmo
+            /\ live_ids (fa f) = [0%nat] /\ said_no f = false /\ length (items f) = 3%nat /\ shots f = [].
 Proof. eexists. split; [vm_compute; reflexivity|]. vm_compute. repeat split; reflexivity. Qed.
